@@ -3402,6 +3402,11 @@ void Analyser::analyseModel(const ModelPtr &model)
 
     pFunc()->removeAllIssues();
 
+    // Start from a new analyser model: the one of a previous call may still be
+    // in use and says nothing about this model.
+
+    pFunc()->mModel = AnalyserModel::AnalyserModelImpl::create(model);
+
     if (model == nullptr) {
         auto issue = Issue::IssueImpl::create();
 
